@@ -16,8 +16,11 @@ from .common import (
 
 EXPLANATION = (
     "Static information-retention analysis of the two functions that define message equality. "
-    "C20.EQ: every path of __eq__ (both hierarchies) returns truthy only under a class-identity test and a comparison of the two "
-    "complete renderings. C20.RETAIN: to_dict is abstractly interpreted for every concrete message class (and every part class) on an "
+    "C20.EQ: __eq__ is abstractly evaluated (everything under indi/message inlined, constant propagation over distinct constant field "
+    "values) for every concrete message class on the property's own perturbation table: an independently rebuilt copy must compare equal; "
+    "each attribute changed / dropped, text changed / dropped, each child changed / dropped / duplicated / swapped with its neighbour, all "
+    "children dropped, and the kind changed must compare unequal, in both argument orders; parts of different kinds with identical fields "
+    "compare unequal. C20.RETAIN: to_dict is abstractly interpreted for every concrete message class (and every part class) on an "
     "instance whose attributes, text and three children are distinct symbols; every symbol must reach the result under a key/index that "
     "identifies it (attributes by name, children as an ordered sequence with one entry per child). A last-writer-wins store inside the "
     "children loop leaves only the last child's symbols in the result and is reported with the lost child as witness."
@@ -223,82 +226,184 @@ def rule_retain(ctx):
             ctx.holds("C20.RETAIN", f"{f.short}[{pc.name}]", f"{len(syms)} fields retained", fi=f)
 
 
-def _class_identity(t) -> bool:
-    """cmp term that tests class identity of self and other."""
-    if not (isinstance(t, Term) and t.op == "cmp" and t.args[0] in ("==", "is")):
-        return False
-    a, b = show(t.args[1]), show(t.args[2])
-    forms = [{"self.__class__", "other.__class__"}, {"type(self)", "type(other)"}]
-    return {a, b} in forms
+def _concrete_instance(ctx, ci, tagv="v", nkids=3, child_cls=None):
+    """Instance whose attributes, text and children carry distinct constant strings."""
+    p = ctx.p
+    o, _ = _abstract_instance(ctx, ci, "m", with_children=False)
+    inst = Obj(ci, {"__closed__": Const(True)}, label=f"{ci.name}:{tagv}")
+    for k in o.attrs:
+        if k.startswith("__"):
+            continue
+        inst.attrs[k] = Const(f"{tagv}:{k}")
+    res = abstract_construct(p, ci, full_kwargs(p, ci))
+    has_children = any("children" in oo.attrs for pa, oo in res if pa.outcome == "return" and oo is not None)
+    if has_children:
+        ccls = child_cls
+        if ccls is None:
+            for cand in ("children_class", "child_class"):
+                v = p.class_constant(ci, cand)
+                if v is not None and hasattr(v, "mro"):
+                    ccls = v
+        kids = []
+        for i in range(nkids):
+            kids.append(_concrete_part(ctx, ccls, f"{tagv}.c{i}"))
+        inst.attrs["children"] = Lst(kids)
+    return inst
 
 
-def _render_cmp(t) -> bool:
-    if not (isinstance(t, Term) and t.op == "cmp" and t.args[0] == "=="):
-        return False
-    a, b = show(t.args[1]), show(t.args[2])
-    return {a, b} == {"self.to_dict()", "other.to_dict()"}
+def _concrete_part(ctx, ccls, tagv):
+    c, syms = _abstract_part(ctx, ccls, "p")
+    o = Obj(ccls, {"__closed__": Const(True)}, label=f"{ccls.name}:{tagv}")
+    for k in syms:
+        o.attrs[k] = Const(f"{tagv}:{k}")
+    return o
+
+
+def _eval_eq(ctx, a_factory, b_factory):
+    """Truth of a == b by abstract evaluation (fresh objects per path); None when undecided."""
+    p = ctx.p
+    holder = {}
+
+    def run(it: Interp):
+        a, b = a_factory(), b_factory()
+        f = a.cls.find_method("__eq__")
+        if f is None:
+            raise Undecided("no __eq__")
+        holder["f"] = f
+        return it.run_function(Fn(f, a), [b], {})
+
+    pol = lambda fi, node: fi.module.name.startswith("indi.message") and fi.module.name != "indi.message.checks"
+    paths = explore(p, run, {"inline": pol, "max_depth": 12})
+    ctx.paths_enumerated += len(paths)
+    if len(paths) != 1 or paths[0].outcome != "return":
+        return None, holder.get("f")
+    return paths[0].interp.truth_of(paths[0].value), holder.get("f")
 
 
 def rule_eq(ctx):
+    """Equality decided by abstract evaluation of __eq__ on a perturbation table (the property's own quantifier)."""
     p = ctx.p
+    classes = concrete_message_classes(p)
     n = 0
-    for base in (msg_base(p), part_base(p)):
-        impls = {}
-        for ci in [base] + base.all_subclasses():
-            for nm in ("__eq__", "__ne__", "__hash__"):
-                if nm in ci.methods:
-                    impls[(ci.qualname, nm)] = ci.methods[nm]
-        for (q, nm), f in impls.items():
-            if nm == "__ne__":
-                ctx.violated("C20.EQ", f.short, "__ne__ is overridden: != is no longer the negation of the analysed ==", fi=f, text="__ne__")
+    bad = False
+    f_last = None
+    for ci in classes:
+        base = lambda ci=ci: _concrete_instance(ctx, ci)
+        probe = base()
+        attrs = [k for k in probe.attrs if not k.startswith("__") and k != "children"]
+        kids = probe.attrs.get("children")
+        perts = []
+        for k in attrs:
+            def ch(k=k, ci=ci):
+                o = _concrete_instance(ctx, ci)
+                o.attrs[k] = Const("CHANGED")
+                return o
+            def dr(k=k, ci=ci):
+                o = _concrete_instance(ctx, ci)
+                o.attrs[k] = Const(None)
+                return o
+            perts.append((f"attribute '{k}' changed" if k != "value" else "text changed", ch))
+            perts.append((f"attribute '{k}' dropped" if k != "value" else "text dropped", dr))
+        if kids is not None:
+            nk = len(kids.items)
+            for i in range(nk):
+                for ck in [k for k in kids.items[i].attrs if not k.startswith("__")]:
+                    def chc(i=i, ck=ck, ci=ci):
+                        o = _concrete_instance(ctx, ci)
+                        o.attrs["children"].items[i].attrs[ck] = Const("CHANGED")
+                        return o
+                    perts.append((f"child #{i}: '{ck}' changed", chc))
+                def drop(i=i, ci=ci):
+                    o = _concrete_instance(ctx, ci)
+                    del o.attrs["children"].items[i]
+                    return o
+                def dup(i=i, ci=ci):
+                    o = _concrete_instance(ctx, ci)
+                    o.attrs["children"].items.insert(i, o.attrs["children"].items[i])
+                    return o
+                perts.append((f"child #{i} dropped", drop))
+                perts.append((f"child #{i} duplicated", dup))
+                if i + 1 < nk:
+                    def swap(i=i, ci=ci):
+                        o = _concrete_instance(ctx, ci)
+                        it_ = o.attrs["children"].items
+                        it_[i], it_[i + 1] = it_[i + 1], it_[i]
+                        return o
+                    perts.append((f"children #{i} and #{i + 1} swapped", swap))
+            def nochildren(ci=ci):
+                o = _concrete_instance(ctx, ci)
+                o.attrs["children"] = Lst([])
+                return o
+            perts.append(("all children dropped", nochildren))
+        # kind changed: another concrete class carrying the very same fields
+        for other in classes:
+            if other is not ci:
+                oa = [k for k in _concrete_instance(ctx, other).attrs if not k.startswith("__")]
+                if sorted(oa) == sorted(k for k in probe.attrs if not k.startswith("__")):
+                    def kind(ci=ci, other=other):
+                        o = _concrete_instance(ctx, ci)
+                        o.cls = other
+                        o.hint = other
+                        return o
+                    perts.append((f"kind changed to {other.name}", kind))
+                    break
+        t, f_ = _eval_eq(ctx, base, base)
+        f_last = f_ or f_last
+        n += 1
+        inst = f"{f_.short if f_ else '__eq__'}[{ci.name}]"
+        if t is None:
+            ctx.undecided("C20.EQ", inst, "equality of two independently built equal messages is not decided by constant evaluation", fi=f_)
+            bad = True
+            continue
+        if not t:
+            ctx.violated("C20.EQ", inst, "two independently rebuilt, field-for-field identical messages compare unequal", fi=f_, text=f"copy-unequal:{ci.name}")
+            bad = True
+        for what, mk in perts:
+            n += 1
+            t, _ = _eval_eq(ctx, base, mk)
+            t2, _ = _eval_eq(ctx, mk, base)
+            if t is None or t2 is None:
+                ctx.undecided("C20.EQ", inst, f"perturbation '{what}' not decided by constant evaluation", fi=f_)
+                bad = True
+            elif t or t2:
+                ctx.violated("C20.EQ", inst, f"messages that differ by [{what}] compare equal", fi=f_, text=f"equal-despite:{_pert_class(what)}", witness=f"{ci.name}: {what}")
+                bad = True
+    # parts: class identity matters (same fields, other kind)
+    parts = concrete_part_classes(p)
+    for pc in parts:
+        for other in parts:
+            if other is pc:
                 continue
-            if nm == "__hash__":
+            a_attrs = sorted(k for k in _concrete_part(ctx, pc, "v").attrs if not k.startswith("__"))
+            b_attrs = sorted(k for k in _concrete_part(ctx, other, "v").attrs if not k.startswith("__"))
+            if a_attrs != b_attrs:
                 continue
             n += 1
-            a = f.node.args
-            names = [x.arg for x in a.args]
-            if len(names) != 2:
-                ctx.undecided("C20.EQ", f.short, "unexpected __eq__ signature", fi=f)
-                continue
-            paths = run_method(p, f, self_val=Term("param", "self", hint=f.cls), args=[Term("param", "other")], opts={"exact_class": False})
-            ctx.paths_enumerated += len(paths)
-            ok = True
-            true_paths = 0
-            for pa in paths:
-                if pa.outcome != "return":
-                    continue
-                assumed_false = [e for e in pa.assumes() if not e.data["truth"]]
-                v = pa.value
-                if assumed_false:
-                    # must return something falsy: the very value that was assumed false, or False
-                    if any(e.data["cond"] is v for e in assumed_false) or (isinstance(v, Const) and not v.v):
-                        continue
-                    ctx.violated("C20.EQ", f.short, f"a path that failed a test still returns {show(v)}", fi=f, text=f"falsy-path:{show(v)[:60]}")
-                    ok = False
-                    continue
-                true_paths += 1
-                conj = [e.data["cond"] for e in pa.assumes()] + [v]
-                if not any(_class_identity(c) for c in conj):
-                    ctx.violated("C20.EQ", f.short, "equality can be true without a class-identity test (messages of different kinds may compare equal)", fi=f, text="class-test-missing", witness="two messages of different kinds with identical attributes")
-                    ok = False
-                if not any(_render_cmp(c) for c in conj):
-                    ctx.violated("C20.EQ", f.short, "equality can be true without comparing the two complete renderings", fi=f, text="render-compare-missing")
-                    ok = False
-                extra = [c for c in conj if not _class_identity(c) and not _render_cmp(c)]
-                for c in extra:
-                    if isinstance(c, Const):
-                        continue
-                    ctx.undecided("C20.EQ", f.short, f"additional conjunct outside the recognised forms: {show(c)[:80]}", fi=f)
-                    ok = False
-            if true_paths == 0:
-                ctx.violated("C20.EQ", f.short, "no path returns a truthy result: equal messages compare unequal", fi=f, text="never-equal")
-                ok = False
-            if ok:
-                ctx.holds("C20.EQ", f.short, "truthy only under class identity and equality of the complete renderings", fi=f)
-    ctx.floor("C20.EQ", "__eq__ implementations", n, 2)
+            t, f_ = _eval_eq(ctx, lambda pc=pc: _concrete_part(ctx, pc, "v"), lambda other=other: _concrete_part(ctx, other, "v"))
+            if t is None:
+                ctx.undecided("C20.EQ", f"{pc.short} vs {other.name}", "not decided", ci=pc)
+                bad = True
+            elif t:
+                ctx.violated("C20.EQ", f"{f_.short}[{pc.name}]", f"a <{pc.name}> and a <{other.name}> with identical fields compare equal", fi=f_, text=f"part-kind:{pc.name}", witness=f"{pc.name} vs {other.name}")
+                bad = True
+            break
+    for base_ in (msg_base(p), part_base(p)):
+        for ci in [base_] + base_.all_subclasses():
+            if "__ne__" in ci.methods:
+                ctx.violated("C20.EQ", ci.methods["__ne__"].short, "__ne__ is overridden: != is no longer the negation of the analysed ==", fi=ci.methods["__ne__"], text="__ne__")
+                bad = True
+    ctx.counters["C20.EQ:equality evaluations"] = n
+    if not bad:
+        ctx.holds("C20.EQ", "indi/message/base.py::IndiMessage.__eq__", f"{n} evaluations: rebuilt copies equal; every single-point perturbation (attribute, text, each child changed/dropped/duplicated/swapped, kind) unequal, in both argument orders", fi=f_last)
+    ctx.exhaustive_domains.append("every concrete message class x every single-point perturbation of the property's quantifier")
+
+
+def _pert_class(what: str) -> str:
+    import re as _re
+    return _re.sub(r"'[^']*'|#\d+|to \w+", "*", what)
 
 
 RULES = [
-    ("C20.EQ", rule_eq, "__eq__ = class identity AND equality of the complete renderings, on every path, both hierarchies"),
+    ("C20.EQ", rule_eq, "__eq__ abstractly evaluated on the perturbation table: copies equal, every single-point perturbation unequal"),
     ("C20.RETAIN", rule_retain, "to_dict retains every attribute under its key, the text, and all children as an ordered 1:1 sequence"),
 ]
